@@ -564,6 +564,72 @@ written -/
 def dropGated (ws : List WF) (view : View) (o : Obj) : Obj :=
   (ws.filter WF.owned).map fun w => (w.id, if condHolds view w.cond then o.get w.id else .absent)
 
+/-! ## the flat layout of a record's own writer program / reader layout
+
+An array item of a table (`WItem.array elem`, `WItem.arrayV pre tail`, `RItem.array cnt elem`) describes its elements
+only by scalar widths; when the element type is itself a generated record with its own (writer, reader) pair, these
+functions compute that description from the record's programs, and the translator emits the (kernel-checked)
+equalities `wShape <R>_w = some (…)` / `rFixed <R>_r = some elem` next to the table's pair. -/
+
+/-- `(pre, none)`: exactly the scalars `pre`; `(pre, some t)`: `pre`, then any number of `t`-byte scalars -/
+abbrev FlatShape := List Nat × Option Nat
+
+def itemShape : WItem → Option FlatShape
+  | .scalar _ sz => some ([sz], none)
+  | .array elem (some n) => some (repGroup n elem, none)
+  | .array elem none =>
+    match elem with
+    | [] => none
+    | t :: r => if r.all (· == t) then some ([], some t) else none
+  | .arrayV pre tail (some 1) => some (pre, some tail)
+  | .arrayV pre tail _ => if pre.all (· == tail) then some ([], some tail) else none
+  | .arrayL _ _ => none
+
+def shapeCat : FlatShape → FlatShape → Option FlatShape
+  | (p1, none), (p2, t2) => some (p1 ++ p2, t2)
+  | (p1, some t), (p2, none) => if p2.all (· == t) then some (p1, some t) else none
+  | (p1, some t), (p2, some t2) => if t == t2 && p2.all (· == t) then some (p1, some t) else none
+
+/-- the flat layout of what a record's generated `write_into` writes (unconditional statements only) -/
+def wShape : List WF → Option FlatShape
+  | [] => some ([], none)
+  | w :: ws =>
+    if w.cond.isSome then none
+    else
+      match itemShape w.item, wShape ws with
+      | some a, some b => shapeCat a b
+      | _, _ => none
+
+/-- the scalar widths a flat layout gives to an element of `len` scalars -/
+def shapeWidths : FlatShape → Nat → List Nat
+  | (pre, none), _ => pre
+  | (pre, some t), len => wWidths pre t len
+
+/-- the scalars a field value consists of -/
+def itemVals : Val → List Nat
+  | .num n => [n]
+  | .arr xs => xs.flatten
+  | .absent => []
+
+/-- the scalars the statements write, in order (`none` where `emit` panics) -/
+def emitVals (ext : Ext) (o : Obj) : List WF → View → Option (List Nat)
+  | [], _ => some []
+  | w :: ws, view =>
+    match emitField ext o view w with
+    | none => none
+    | some (_, v) =>
+      match emitVals ext o ws ((w.id, v) :: view) with
+      | none => none
+      | some vs => some (itemVals v ++ vs)
+
+/-- a fixed-size record on the read side: the widths of its (unconditional) scalar fields -/
+def rFixed : List RF → Option (List Nat)
+  | [] => some []
+  | r :: rs =>
+    match r.cond, r.item, rFixed rs with
+    | none, .scalar sz, some ws => some (sz :: ws)
+    | _, _, _ => none
+
 /-! ## format enums -/
 
 /-- one variant of a generated format enum: the value of its format field (`impl Format<T> for XMarker { const FORMAT }`),
